@@ -250,12 +250,12 @@ func seedDesc(v ssa.Value) string {
 // ND-3 map iteration
 
 var tabledSortSites = map[string]string{
-	"model.(*Weights).AsKeyValue":                                      "sorted by name; map keys are unique, so the order is total",
-	"satisfaction_levels.(*SatisfactionLevelsUpdateListeners).Fetch":   "keys sorted by sort.Strings; unique; only used in an error message",
-	"owa.sortAlternativeCriteriaWeights":                               "only the float values are kept and sorted; equal values are indistinguishable",
-	"choquet.prepareCriteriaInAscendingOrder":                          "sorted by value; exactly-equal values form one tie group in computeTotalWeight whose members are re-sorted by name (criterionKey)",
-	"owa.additionAsOwaParams":                                          "ids sorted by sort.Strings; map keys are unique",
-	"fx.OkMapSorted":                                                   "positive-control twin in /verif/fixtures: only the values are kept and sorted",
+	"model.(*Weights).AsKeyValue":                                    "sorted by name; map keys are unique, so the order is total",
+	"satisfaction_levels.(*SatisfactionLevelsUpdateListeners).Fetch": "keys sorted by sort.Strings; unique; only used in an error message",
+	"owa.sortAlternativeCriteriaWeights":                             "only the float values are kept and sorted; equal values are indistinguishable",
+	"choquet.prepareCriteriaInAscendingOrder":                        "sorted by value; exactly-equal values form one tie group in computeTotalWeight whose members are re-sorted by name (criterionKey)",
+	"owa.additionAsOwaParams":                                        "ids sorted by sort.Strings; map keys are unique",
+	"fx.OkMapSorted":                                                 "positive-control twin in /verif/fixtures: only the values are kept and sorted",
 }
 
 // reachesGenerator: does f (transitively, bounded) call a ValueGenerator?
